@@ -15,7 +15,8 @@ import (
 // in the middle of arbitrary histories (after Remove/Clean, between rejected
 // registrations); the only oracle is the recover() monitor.
 
-var garbagePieces = []string{"{", "}", ":", "-", "/", "*", "", "\\d+", "[", "(", ")", "id", "{id}", "{id:\\d+}", "{-x}", "{x:digit}", "a", "b", "\xff", "\x00", "{{", "}}", "{:}", "{}", "{-}", "%", "?", "#", " ", "/a/", ".html", "{a}{b}", "{a:[}", "é", "{a:(?P<a>x)}", "+", "|", "^", "$", "\\", "{id:a)|(b}", "{v:x)|(y}/z", ")|(", "{w:(}", "{q:a|b)}", "b", "y/z"}
+var garbagePieces = []string{"{", "}", ":", "-", "/", "*", "", "\\d+", "[", "(", ")", "id", "{id}", "{id:\\d+}", "{-x}", "{x:digit}", "a", "b", "\xff", "\x00", "{{", "}}", "{:}", "{}", "{-}", "%", "?", "#", " ", "/a/", ".html", "{a}{b}", "{a:[}", "é", "{a:(?P<a>x)}", "+", "|", "^", "$", "\\", "{id:a)|(b}", "{v:x)|(y}/z", ")|(", "{w:(}", "{q:a|b)}", "b", "y/z",
+	"{-:\\d+}", "{-:}", "{-:digit}", "{-x:\\d+}", "{:\\d+}", "{-:a|b}", "{--x}", "{-:\\d+}/a", "{x:}", "{-x:}"}
 
 func garbage(r *Rng) string {
 	switch r.Intn(12) {
@@ -33,7 +34,7 @@ func garbage(r *Rng) string {
 }
 
 var hostileMethods = []string{"GET", "POST", "OPTIONS", "HEAD", "TRACE", "", "get", "BOGUS", "CONNECT", "PRI", "\xff", "G E T", strings.Repeat("M", 300), "DELETE", "PATCH"}
-var hostilePaths = []string{"b", "/b", "y/z", "/y/z", "a", "*", "", "/", "//", "x", "/\xff\xfe", "/%zz", "/a/../b", "/\x00", "/{id}", "{", "}", "/users/{", "?", " ", "/s/", "/s", "/u/1/", "/.", "/./", "/../", "/a//b", "\\", "/users/5/7/log", "/posts/1.html"}
+var hostilePaths = []string{"b", "/b", "y/z", "/y/z", "a", "*", "", "/", "//", "x", "/\xff\xfe", "/%zz", "/a/../b", "/\x00", "/{id}", "{", "}", "/users/{", "?", " ", "/s/", "/s", "/u/1/", "/.", "/./", "/../", "/a//b", "\\", "/users/5/7/log", "/posts/1.html", "/v1", "/v2", "/v2/", "v1", "/v11", "/v1/"}
 var hostileHosts = []string{"[\u212a]:8080", "[\u212a\u212a.com]", "[\u2126\u2126]:1", "[\u0130.example.com]", "\u212a\u212a\u212a.com:80", "\u212ax:8", "\u2126\u2126.example.com:443", "\u1e9e\u1e9e\u1e9e\u1e9e:1", "\u212a.example.com", "", "example.com", "EXAMPLE.com:80", "example.com:", "example.com:x", "[::1]", "[::1]:80", "[", "]", "[]", ":", "::", "a.example.com:99999999999", "\xff.com", "*.example.com", "{sub}.example.com", "api.example.com", "A.b.C", ".", "..", "[::1", "::1]", "x:1:2", strings.Repeat("a.", 200)}
 
 func hostileReq(r *Rng, pats []*Pattern) Req {
